@@ -75,6 +75,9 @@ def Ctx.deliverRouted (c : Ctx) : Ctx :=
         else if !passesPres t p.what p.filterIn p.filterOut uid then c
         else c.emit sid (presFrame t.name p)) c) c
 
+/-- a subscriber hears of the topic's presence with P unless banned from it (no J) -/
+def hearsPres (m : Mode) : Bool := isPresencer m && isJoiner m
+
 /-- presOfflineFilter (pres.go:705-719) with a nil or given filter -/
 def presOfflineFilter (mode : Mode) (what : String) (filterIn filterOut : Mode) : Bool :=
   if what = "acs" ∨ what = "gone" then true
